@@ -50,6 +50,17 @@ def micro(rng, kind):
     return rng.randint(-999_999_000_000, 999_999_000_000)
 
 
+SENTINEL_SUBSETS = [("x", "y"), ("x", "z"), ("x", "clk"), ("y", "z"), ("y", "clk"), ("z", "clk"),
+                    ("x", "y", "z"), ("x", "y", "clk"), ("x", "z", "clk"), ("y", "z", "clk"), ("x", "y", "z", "clk")]
+
+
+def corr_fields(a, b, c, d):
+    """the six correlation coefficients of an EP / EV record (8 columns each), derived from the drawn values"""
+    vals = [(a * 7919 + b) % 19999999 - 9999999, (b * 104729 + c) % 19999999 - 9999999, (c * 1299709 + d) % 19999999 - 9999999,
+            (d * 31 + a) % 19999999 - 9999999, (a * b + c) % 19999999 - 9999999, (b * c + d) % 19999999 - 9999999]
+    return "".join(f" {v:8d}" for v in vals)
+
+
 def gen_model(rng, quick, version=None, pv=None, nsat=None, nep=None, sats=None, ncomments=None):
     """an abstract SP3 file (the `File` of lean/Midgard/Spec/Sp3File.lean) as plain Python data.
     The keyword arguments override the drawn values (without them the random stream is what it always was)."""
@@ -122,12 +133,17 @@ def gen_model(rng, quick, version=None, pv=None, nsat=None, nep=None, sats=None,
                 acc["sclk"] = None if rng.random() < 0.15 else rng.randint(0, 200)
                 acc["flags"] = [rng.choice(["", "E"]), rng.choice(["", "P"]), rng.choice(["", "M"]), rng.choice(["", "P"])] if cut > 0.6 else [""] * 4
                 r["acc"] = acc
+            # EP / EV records in the layout of the standard (SP3-c/d: `EP  55  55  55     222  1234567 -1234567 …`: standard deviations
+            # in mm / ps - 1e-4 mm/s, 1e-4 ps/s for EV - then six correlation coefficients), non-zero, also after P records whose
+            # accuracy columns are blank or missing: those stay NaN, the EP values are not delivered
             if rng.random() < 0.1:
-                r["extras"].append(("EP", f"{s}  {rng.randint(0, 9999):4d} {rng.randint(0, 9999):4d} {rng.randint(0, 9999):4d} {rng.randint(0, 9999999):7d}"))
+                a, b, c, d = rng.randint(0, 9999), rng.randint(0, 9999), rng.randint(0, 9999), rng.randint(0, 9999999)
+                r["extras"].append(("EP", f"  {max(a, 1):4d} {max(b, 1):4d} {max(c, 1):4d} {max(d, 1):7d}" + corr_fields(a, b, c, d)))
             if pv == "V":
                 r["extras"].append(("V", s + "".join(f"{rng.uniform(-30000, 30000):14.6f}" for _ in range(4))))
                 if rng.random() < 0.1:
-                    r["extras"].append(("EV", f"{s}  {rng.randint(0, 9999):4d} {rng.randint(0, 9999):4d} {rng.randint(0, 9999):4d} {rng.randint(0, 9999999):7d}"))
+                    a, b, c, d = rng.randint(0, 9999), rng.randint(0, 9999), rng.randint(0, 9999), rng.randint(0, 9999999)
+                    r["extras"].append(("EV", f"  {max(a, 1):4d} {max(b, 1):4d} {max(c, 1):4d} {max(d, 1):7d}" + corr_fields(a, b, c, d)))
             # blank lines after the record (kind "B": 0..5 blanks and nothing else).  Decided by the values already drawn, so the
             # random stream - and with it every generated file apart from these lines - is what it was without them
             z = (abs(r["x"]) + 7 * abs(r["clk"]) + 3 * abs(r["y"])) % 40
@@ -135,6 +151,14 @@ def gen_model(rng, quick, version=None, pv=None, nsat=None, nep=None, sats=None,
                 for j in range(1 + z % 2):
                     b = ("B", " " * ((abs(r["z"]) + 5 * j) % 6))
                     r["extras"].insert(0 if (z == 2 and r["extras"]) else len(r["extras"]), b)
+            # several bad-value markers at once (every 2-, 3-subset of x y z clk and all four: a placeholder record still is one
+            # entry, of NaNs).  Decided by the values already drawn (after the blank lines), so the random stream is unchanged
+            h = (abs(r["x"]) // 3 + 5 * abs(r["y"]) + 11 * abs(r["clk"])) % 25
+            if h < 2:
+                k = (abs(r["z"]) // 7 + abs(r["x"])) % 14
+                subset = SENTINEL_SUBSETS[k] if k < 11 else ("x", "y", "z", "clk")
+                for c in subset:
+                    r[c] = 999_999_999_999 if c == "clk" else 0
             recs.append(r)
         epochs.append({"t": t, "s7": t.second * 10**7 + tot7 % 10**7, "recs": recs})
     return {"version": version, "line1": line1, "line2": line2, "satlines": satlines, "ft": ft, "ts": time_sys,
@@ -460,6 +484,15 @@ def one_file(ctx, impl, drv, f, corpus=False):
         ctx.count("records", len(f["recs"]))
         ctx.count("records:cut after clock", sum(1 for e in F["epochs"] for r in e["recs"] if r["acc"] is None))
         ctx.count("records:padded to 80 columns", sum(1 for e in F["epochs"] for r in e["recs"] if r["pad80"]))
+        for e in F["epochs"]:
+            for i, r in enumerate(e["recs"]):
+                marks = sum([r["x"] == 0, r["y"] == 0, r["z"] == 0, r["clk"] == 999_999_999_999])
+                if marks >= 2:
+                    where = "only record" if len(e["recs"]) == 1 else "first" if i == 0 else "last" if i == len(e["recs"]) - 1 else "middle"
+                    ctx.count(f"records:{'all four' if marks == 4 else marks} bad-value markers at once ({where} in the block)")
+                blank_acc = r["acc"] is None or None in (r["acc"]["sx"], r["acc"]["sy"], r["acc"]["sz"], r["acc"]["sclk"])
+                if blank_acc and any(k == "EP" for k, _ in r["extras"]):
+                    ctx.count("records:blank or missing accuracy columns followed by an EP record")
         ctx.count("records:position sentinel", sum(1 for r in f["recs"] if None in (r["px"], r["py"], r["pz"])))
         ctx.count("records:clock sentinel", sum(1 for r in f["recs"] if r["clk"] is None))
         ctx.count("records:blank accuracy code", sum(1 for e in F["epochs"] for r in e["recs"] if r["acc"] and None in (r["acc"]["sx"], r["acc"]["sy"], r["acc"]["sz"], r["acc"]["sclk"])))
